@@ -1,9 +1,21 @@
 #!/bin/bash
-# usage: try_seed.sh <ID> <patch.diff> [tier]  — apply to /repo, run the check, revert; never commits
+# usage: try_seed.sh <ID> <patch.diff> [tier]  — apply to /repo, run the check, revert; never commits.
+# A violation with a replay is replayed on the reverted (clean) tree: it must pass there, otherwise the finding is an alarm of the
+# machinery and not an effect of the change.
 id=$1; patch=$2; tier=${3:-quick}
 git -C /repo apply "$patch" || exit 2
 python3 /verif/tools/check.py $id --tier $tier > /tmp/try_seed.$$ 2>&1
 grep -E "^VIOLATION|^KNOWN-FINDING" /tmp/try_seed.$$ | cut -c1-260
 grep -v "^WARNING\|^VIOLATION\|^KNOWN-FINDING" /tmp/try_seed.$$ | cut -c1-260 | tail -6
+rep=$(grep -E "^VIOLATION" /tmp/try_seed.$$ | grep -v "no-failing-input-found" | sed -n 's/.*replay=\([^ ]*\).*/\1/p' | head -1)
 rm -f /tmp/try_seed.$$
 git -C /repo checkout -- .
+if [ -n "$rep" ] && [ -f "$rep" ]; then
+  cp "$rep" /tmp/try_seed_replay.$$
+  if python3 /verif/tools/check.py $id --replay /tmp/try_seed_replay.$$ 2>&1 | grep -q "^VIOLATION"; then
+    echo "CLEAN-REPLAY: FAILS ON THE UNCHANGED TREE (alarm of the machinery, not an effect of the change)"
+  else
+    echo "clean-replay: passes on the unchanged tree"
+  fi
+  rm -f /tmp/try_seed_replay.$$
+fi
